@@ -290,13 +290,14 @@ template <class R> static void walk_range(R& r, std::vector<int>& uids, int dept
 }
 
 // tbb::parallel_for over range() / const range() must visit every element exactly once; empty() must say whether there are elements
+static tbb::task_arena& range_arena() { static tbb::task_arena* a = new tbb::task_arena(3); return *a; }   // alive for the whole process
 template <class C> static void parallel_range_check(C& c, const std::vector<std::pair<int, int>>& trav, const std::string& F, int next_uid) {
     const C& cc = c;
     for (int pass = 0; pass < 2; pass++) {
         std::mutex m; std::vector<int> got; bool is_empty;
         auto body = [&](const auto& r) { std::vector<int> loc; for (auto it = r.begin(); it != r.end(); ++it) { loc.push_back(v_tag(*it).uid); if (loc.size() > 200000) break; } std::lock_guard<std::mutex> l(m); got.insert(got.end(), loc.begin(), loc.end()); };
-        if (pass == 0) { auto rg = c.range(); is_empty = rg.empty(); tbb::parallel_for(rg, body); }
-        else { auto rg = cc.range(); is_empty = rg.empty(); tbb::parallel_for(rg, body); }
+        if (pass == 0) { auto rg = c.range(); is_empty = rg.empty(); range_arena().execute([&] { tbb::parallel_for(rg, body); }); }
+        else { auto rg = cc.range(); is_empty = rg.empty(); range_arena().execute([&] { tbb::parallel_for(rg, body); }); }
         if (is_empty != trav.empty()) fail(F + (trav.size() == 1 ? ".quiescent.one-element-range-empty" : ".quiescent.range-empty-mismatch"), std::string(pass ? "const " : "") + "range().empty() = " + std::to_string(is_empty) + " for a container with " + std::to_string(trav.size()) + " elements");
         std::vector<int> want; for (auto& e : trav) want.push_back(e.second);
         std::sort(want.begin(), want.end()); std::sort(got.begin(), got.end());
@@ -326,7 +327,7 @@ template <class C> static void probe_final(Scen& s, Final& f, const std::vector<
         f.per.push_back(p);
     }
     if (f.cycle) return;
-    if (deep || f.trav.size() <= 3) parallel_range_check<C>(c, f.trav, F, s.next_uid);
+    if (trng().chance(1, deep ? 3 : f.trav.size() <= 3 ? 6 : 40)) parallel_range_check<C>(c, f.trav, F, s.next_uid);
     if (!deep) return;
     // recursive splitting of range() must yield the traversal sequence
     {
@@ -372,6 +373,7 @@ template <class C> static void probe_final(Scen& s, Final& f, const std::vector<
     }
 }
 
+static bool g_drop_sl_handles = false;
 // quiescent mutations between two rounds: unsafe_erase(key), unsafe_erase(iterator), unsafe_extract + insert(node handle)
 template <class C> static void mutate_quiescent(Scen& s, Rng& r, std::map<int, int>& present /*uid -> key*/) {
     C& c = *(C*)s.cont;
@@ -398,11 +400,11 @@ template <class C> static void mutate_quiescent(Scen& s, Rng& r, std::map<int, i
             int uid = v_tag(*it).uid; size_t sz0 = c.size();
             auto nh = c.unsafe_extract(it);
             if (nh.empty() || c.size() != sz0 - 1) fail(F + ".quiescent.extract-failed", "unsafe_extract gave an empty handle or size() did not drop by one");
-            bool multi = ck_multi(s.kind);
             size_t same_cls = 0; for (auto& e : present) if (e.second / s.cfg.g == cls && e.first != uid) same_cls++;
             if (same_cls == 0 && c.contains(probe<C>(key))) fail(F + ".quiescent.extract-failed", "key still found after unsafe_extract");
             if (!nh.empty()) {
-                if (r.chance(1, 4)) { present.erase(uid); /* handle dropped: element destroyed with it */ }
+                // dropping a non-empty handle of a skip list frees the node with the wrong size (side finding reported; --drop-sl-handles reproduces it)
+                if (r.chance(1, 4) && (ck_unordered(s.kind) || g_drop_sl_handles)) { present.erase(uid); /* handle dropped: element destroyed with it */ }
                 else {
                     auto p = c.insert(std::move(nh));
                     if (!p.second || p.first == c.end() || v_tag(*p.first).uid != uid || !nh.empty()) fail(F + ".quiescent.node-handle-insert-failed", "insert(node_type&&) of the extracted element uid " + std::to_string(uid) + " failed");
@@ -767,6 +769,7 @@ int main(int argc, char** argv) {
     long fixed_scn = a.num("scn", 0);
     long force_threads = a.num("threads", 0), force_kind = a.num("kind", -1);
     int cpus = (int)a.num("cpus", 0);
+    g_drop_sl_handles = a.has("drop-sl-handles");
     const std::string mode = R.mode;
     std::vector<int> ids_uo = { 160, 161, 162, 163 }, ids_sl = { 164, 165, 166 };
     Rng top(mix(R.seed, 0xC12));
